@@ -150,6 +150,7 @@ func mergeRuns(dst, src *HarnessRun) {
 			dst.ReachModel[k] = src.ReachModel[k]
 			dst.ReachObserve[k] = src.ReachObserve[k]
 			dst.ReachTrail[k] = src.ReachTrail[k]
+			dst.ReachSched[k] = src.ReachSched[k]
 		}
 	}
 	for k := range src.Funcs {
